@@ -270,7 +270,9 @@ def generate_C13(rng, tier):
         if n > 5000:
             if quick and tr[0][0] != 65536:
                 continue
-            caps = [n - 1, n] if quick else [0, 1, n - 1, n]
+            if n > (1 << 19) and tr[0][0] != DICT_MAX:
+                continue                      # the refused 2^20+1 array has no encoding to decode
+            caps = [n - 1, n] if (quick or n > (1 << 19)) else [0, 1, n - 1, n]
         elif n <= 10:
             caps = list(range(0, n + 1))
         else:
